@@ -16,7 +16,7 @@
     C17 (typed dispatch) and of the per-case round trip in the check; PEP 440 version text is an oracle. *)
 From Coq Require Import List Bool NArith.
 From PV Require Import Base.Order Base.CutDef DD.DDModel DD.DDBasics DD.DDWf DD.DDPaths Marker.Concrete Marker.Expr Marker.Density Marker.Sem508
-  Marker.DnfModel Marker.DnfProofs.
+  Marker.DnfModel Marker.DnfProofs Text.Cursor Text.MarkerParse Text.MarkerAccept Text.MarkerDisplay Text.MarkerDisplayProofs.
 Import ListNotations.
 Open Scope N_scope.
 
@@ -60,6 +60,45 @@ Print Assumptions C05_to_dnf_recompile.
 Print Assumptions C05_to_dnf_identity.
 Print Assumptions C05_compiled.
 Print Assumptions C05_simplify_plain.
+
+
+(** ** the text: [show_marker] is `Display for MarkerTreeContents` (Text/MarkerDisplay.v: the DNF with ` and `, ` or `,
+    parentheses around multi-term clauses, `quoted`, the star forms, `'v' in key`); the printed text of every
+    non-constant well-formed diagram parses back, without warnings, to the identical diagram - provided each printed
+    comparison re-parses to itself ([term_ok]: proved outright for string, in, contains and normalised-extra
+    comparisons - [term_ok_string] etc. - and reduced to the PEP 440 text round trip of the version oracle for version
+    comparisons), under the density proviso of C03.  FALSE (printed as `python_version < '0'`), deprecated key spellings,
+    values containing both quote characters, `===` and arbitrary extras are outside [term_ok] - the carve-outs of the
+    property (the parser never produces a value with both quotes: [pmv_quoted_one_kind]). *)
+Section Text.
+Variables ws alpha alnum : N -> bool.
+Variable kw : list (text * mvalue).
+Variable vparse : text -> option rawversion.
+Variables specpat specver : vop -> text -> option (vop * list N).
+Variables pv pfv : N.
+Variables vkey_text skey_text : N -> text.
+Variable vshow : list N -> text.
+Variable vshow_raw : rawversion -> text.
+Hypothesis Hws_wc : forall x, word_char alnum x = true -> ws x = false.
+Hypothesis Hws_delims : forall x, In x [34; 39; 40; 41; 60; 61; 62; 126; 33] -> ws x = false.
+Hypothesis Hws_it : ws 105 = false /\ ws 116 = false.
+Hypothesis Halpha_in : alpha 105 = true /\ alpha 110 = true.
+Hypothesis Halpha_sym : forall x, In x [60; 61; 62; 126; 33] -> alpha x = false.
+Hypothesis Halnum_kw : forall x, In x [97; 110; 100; 111; 114] -> alnum x = true.
+Hypothesis Halnum_delims : forall x, In x [40; 41; 34; 39] -> alnum x = false.
+Hypothesis Hws_space : ws 32 = true.
+
+Theorem C05_text_roundtrip (t : mdd) : wfm t -> renderable_dd pv t = true -> t <> Leaf true -> t <> Leaf false ->
+  Forall (Forall (term_ok ws kw vparse specpat specver vkey_text skey_text vshow vshow_raw)) (to_dnf t) ->
+  nice_pair (recompile_dnf pv pfv (to_dnf t)) t ->
+  exists txt, show_marker vkey_text skey_text vshow vshow_raw pv t = Some txt /\
+              parse_markers ws alpha alnum kw vparse specpat specver pv pfv txt = POk (t, []).
+Proof.
+  exact (marker_text_roundtrip ws alpha alnum kw vparse specpat specver pv pfv vkey_text skey_text vshow vshow_raw
+           Hws_wc Hws_delims Hws_it Halpha_in Halpha_sym Halnum_kw Halnum_delims Hws_space t).
+Qed.
+End Text.
+Print Assumptions C05_text_roundtrip.
 
 (** ... but not on arbitrary clause lists (witnesses by computation in Marker/DnfProofs.v) *)
 Check simplify_unsound_star_negation.
